@@ -13,7 +13,7 @@ use rosu_map::Beatmap;
 use std::sync::mpsc;
 use std::time::{Duration, Instant};
 
-pub const RULE: &str = "byte strings: uniform noise, grammar-generated .osu text (levels 0-2, hostile numerics), byte/line/field mutations, splices and truncations of the bundled maps, BOM/UTF-16 variants, every byte string of length <= 2 (thorough: <= 3) over the BOM/line-feed alphabet, files whose string-valued fields (file names, metadata, colour names, sample files, headers) carry multi-byte characters at every offset from their end, maps of 22-71 objects whose start/end times lie within 8 ulps of each other in any file order; each under a watchdog (no return within 15 s = hang) through all nine decoder types (from_bytes) and, for Beatmap, re-encoded; non-trivial = at least one section header recognised and at least 5 lines; distinct = distinct byte strings";
+pub const RULE: &str = "byte strings: uniform noise, grammar-generated .osu text (levels 0-2, hostile numerics), byte/line/field mutations, splices and truncations of the bundled maps, BOM/UTF-16 variants, UTF-16LE files cut right after the low byte of each of their line feeds, every byte string of length <= 2 (thorough: <= 3) over the BOM/line-feed alphabet, files whose string-valued fields (file names, metadata, colour names, sample files, headers) carry multi-byte characters at every offset from their end, maps of 22-71 objects whose start/end times lie within 8 ulps of each other in any file order; each under a watchdog (no return within 15 s = hang) through all nine decoder types (from_bytes) and, for Beatmap, re-encoded; non-trivial = at least one section header recognised and at least 5 lines; distinct = distinct byte strings";
 
 fn hex(bytes: &[u8]) -> String {
     let mut s = String::with_capacity(bytes.len() * 2);
@@ -24,11 +24,6 @@ fn hex(bytes: &[u8]) -> String {
         s.push_str("...");
     }
     s
-}
-
-fn d6_class(bytes: &[u8]) -> bool {
-    // UTF-16LE stream that ends right after the low byte of a line feed
-    bytes.len() >= 3 && bytes[0] == 0xFF && bytes[1] == 0xFE && *bytes.last().unwrap() == 0x0A
 }
 
 macro_rules! try_decoder {
@@ -42,10 +37,9 @@ macro_rules! try_decoder {
         }
         match r {
             Err(p) => $out.fail("", $desc, &format!("{}: decoder panicked: {}", $name, p)),
-            Ok(Err(e)) => {
-                let cls = if d6_class($bytes) && e.kind() == std::io::ErrorKind::UnexpectedEof { "D6" } else { "" };
-                $out.fail(cls, $desc, &format!("{}: in-memory decode returned an error: {:?}", $name, e.kind()))
-            }
+            // an in-memory reader reports no failure: every Err is a failing input (the former
+            // class D6 -- UTF-16LE stream ending inside a line feed -- is repaired, not exempted)
+            Ok(Err(e)) => $out.fail("", $desc, &format!("{}: in-memory decode returned an error: {:?}", $name, e.kind())),
             Ok(Ok(_)) => {}
         }
     }};
@@ -140,10 +134,7 @@ fn check_bytes_rec(bytes: &[u8], origin: &str, out: &mut Rec) {
     }
     match r {
         Err(p) => out.fail("", &desc, &format!("Beatmap: decode or encode panicked: {}", p)),
-        Ok((false, _, _)) => {
-            let cls = if d6_class(bytes) { "D6" } else { "" };
-            out.fail(cls, &desc, "Beatmap: in-memory decode returned an error")
-        }
+        Ok((false, _, _)) => out.fail("", &desc, "Beatmap: in-memory decode returned an error"),
         Ok((true, Some(Err(k)), _)) => out.fail("", &desc, &format!("Beatmap: encode_to_string failed: {:?}", k)),
         Ok((true, _, n)) => {
             out.count(&format!("beatmap.objects.{}", if n == 0 { "0" } else if n < 5 { "1-4" } else { "5+" }));
@@ -375,6 +366,24 @@ pub fn inputs(tier: &str, seed: u64, mut f: impl FnMut(&[u8], &str)) {
             b.truncate(cut);
         }
         f(&b, &format!("encoded-enc{}", enc));
+    }
+    // 4b. UTF-16LE streams that end right after the low byte of a line feed (the inputs of the
+    // repaired finding D6: read_exact turned the clean end of the stream into UnexpectedEof):
+    // generated files, LF and CRLF, cut after the 0x0A of their line feeds; the shortest such streams
+    for i in 0..12 * scale {
+        let o = Opts { level: (i % 2) as u8, max_objects: 4, ..Opts::default() };
+        let text = gen_osu::file(&mut r, &o);
+        let text = if i % 3 == 2 { text.replace('\n', "\r\n") } else { text };
+        let b = gen_osu::encode_as(&text, 2);
+        let cuts: Vec<usize> = (2..b.len().saturating_sub(1)).step_by(2).filter(|&p| b[p] == 0x0A && b[p + 1] == 0).map(|p| p + 1).collect();
+        for (j, &c) in cuts.iter().enumerate() {
+            if tier == "thorough" || j % 4 == i % 4 || j + 1 == cuts.len() {
+                f(&b[..c], "utf16le-lf-cut");
+            }
+        }
+    }
+    for s in [&[0xFFu8, 0xFE, 0x0A][..], &[0xFF, 0xFE, b'a', 0, 0x0A], &[0xFF, 0xFE, 0x0A, 0, 0x0A], &[0xFF, 0xFE, 0x0D, 0, 0x0A], &[0xFF, 0xFE, b'[', 0, 0x0A], &[0xFF, 0xFE, 0x0A, 0x0A]] {
+        f(s, "utf16le-lf-cut");
     }
     // 5. every short byte string over the alphabet of the BOM sniffer and the line splitter
     //    (complete and partial BOMs, NUL, LF, a header byte, a letter)
